@@ -315,6 +315,17 @@ def _num(draw, model, env, depth):
         v = draw(st.sampled_from([("1", ["int"]), ("2", ["int"]), ("1.5", ["float"]), ("0.25", ["float"])]))
         return ["const", v[0], v[1]], v[1]
 
+    if draw(st.integers(0, 9)) == 0:
+        # not arithmetic on numbers: two strings joined give a string
+        def text():
+            if depth > 0 and draw(st.booleans()):
+                e, t = draw(_expr(model, env, depth - 1))
+                if t == ["str"]:
+                    return e, t
+            return ["const", draw(st.sampled_from(["'a'", "'b c'", "''"])), ["str"]], ["str"]
+        a, ta = text()
+        b, tb = text()
+        return ["num", "+", a, b], ["str"]
     a, ta = operand()
     if draw(st.integers(0, 7)) == 0:
         # a sign in front of one operand: -x / +x of an int is an int, of a float a float, of a bool an int (python: -True == -1)
@@ -646,6 +657,8 @@ def expected_types(case):
             ta, tb = ty(e[2], env), ty(e[3], env)
             if ta == ["any"] or tb == ["any"]:
                 return ["any"]
+            if ta == ["str"] or tb == ["str"]:
+                return ["str"] if (ta == tb and e[1] == "+") else ["any"]
             return ["float"] if (ta == ["float"] or tb == ["float"] or e[1] == "/") else ["int"]
         if k == "dict":
             return ["rec", [[kk, ty(v, env)] for kk, v in e[1]]]
